@@ -187,7 +187,7 @@ def make(cap, k, span, mode, reach=False, grid=False, period_us=1_000_000, halfg
         a = a if ex.branch(EI(a) >= EI(lo_slot)) else lo_slot
         b = b if ex.branch(EI(b) <= EI(newest) + 1) else newest + 1
         exp_n = (b - a) if (ex.branch(EI(qe) > EI(qs)) and ex.branch(EI(b) > EI(a))) else 0
-        ex.check(EI(exp_n) == n, f"window returned {n} slots, the query spans {exp_n} covered slots")
+        ex.check(EI(exp_n) == n, f"window returned {n} slots, not the number of covered slots between the rounded query bounds")
         if n:
             # element j is the reference content of slot s0 + j, where s0 = slot of max(start, oldest valid)
             oldest_us = (EI(newest) - (cap - 1) + valid_idx[0]) * PUS
